@@ -461,34 +461,84 @@ fn stress(nt: usize, iters: usize, seed: u64) -> String {
         })
     };
     for h in hs { let _ = h.join(); }
-    // phase 2: all creator threads released together (barrier) on a FRESH class, round after round:
-    // every thread must get the same storage and exactly one storage may be constructed per round
+    // phase 2 (own registry): rounds on keys that all fall into ONE shard. Before a round some keys Y are
+    // live; then, released together: half the threads get_or_create the same absent key K (==-equal
+    // keys built differently), one thread creates another absent key K2, the others each delete a
+    // distinct live Y. After EVERY round, at quiescence: all creators of K got one storage; visit shows no
+    // class twice; the handles listing equals the visit; exactly one construction for K; delete(K) is
+    // true, then K is absent (get, visit), a second delete is false; then the registry is emptied.
     let rounds = std::cmp::max(iters / 20, 50);
+    let rounds_done = Arc::new(AtomicU64::new(0));
     {
+        let slog2: Arc<Mutex<Vec<(char, u32, u64)>>> = Arc::new(Mutex::new(Vec::new()));
+        let reg2 = Arc::new(Registry::new(Dbl { next: AtomicU64::new(0), log: slog2.clone() }));
+        let mask = (reg2.__verif_shard_count() - 1) as u64;
+        let mut pool: Vec<u32> = Vec::new();
+        let mut c = 200u32;
+        while pool.len() < 2 + nt && c < 200_000 {
+            if build_key(c, 0).get_hash() & mask == 0 { pool.push(c); }
+            c += 1;
+        }
+        let pool = Arc::new(pool);
+        let ncre = std::cmp::max(nt / 2, 1);
         let barrier = Arc::new(std::sync::Barrier::new(nt));
-        let ids: Arc<Vec<AtomicU64>> = Arc::new((0..nt).map(|_| AtomicU64::new(0)).collect());
-        for r in 0..rounds { class_info(200 + r as u32); }
+        let ids: Arc<Vec<AtomicU64>> = Arc::new((0..nt).map(|_| AtomicU64::new(u64::MAX)).collect());
         let mut hs2 = Vec::new();
         for t in 0..nt {
-            let (reg, errors, barrier, ids) = (reg.clone(), errors.clone(), barrier.clone(), ids.clone());
+            let (reg2, errors, barrier, ids, pool, slog2, rounds_done) = (reg2.clone(), errors.clone(), barrier.clone(), ids.clone(), pool.clone(), slog2.clone(), rounds_done.clone());
             hs2.push(std::thread::spawn(move || {
+                let mut x: u64 = seed.wrapping_mul(0xA24BAED4963EE407).wrapping_add(t as u64 * 104729 + 3) | 1;
+                let mut rnd = move || { x ^= x << 13; x ^= x >> 7; x ^= x << 17; x };
+                let err = |m: String| { let mut e = errors.lock().unwrap(); if e.len() < 5 { e.push(m); } };
+                let goc = |kind: char, key: &Key| -> H { match kind {
+                    'c' => reg2.get_or_create_counter(key, |h| h.clone()),
+                    'g' => reg2.get_or_create_gauge(key, |h| h.clone()),
+                    _ => reg2.get_or_create_histogram(key, |h| h.clone()) } };
+                let del = |kind: char, key: &Key| -> bool { match kind {
+                    'c' => reg2.delete_counter(key), 'g' => reg2.delete_gauge(key), _ => reg2.delete_histogram(key) } };
                 for r in 0..rounds {
                     let kind = ['c', 'g', 'h'][r % 3];
-                    let key = build_key(200 + r as u32, ((t + r) % 6) as u32);
+                    let (kcl, k2cl) = (pool[0], pool[1]);
+                    if t == 0 {
+                        slog2.lock().unwrap().clear();
+                        for y in 2..pool.len() { goc(kind, &build_key(pool[y], (r % 6) as u32)); }
+                    }
                     barrier.wait();
-                    let h = match kind {
-                        'c' => reg.get_or_create_counter(&key, |h| h.clone()),
-                        'g' => reg.get_or_create_gauge(&key, |h| h.clone()),
-                        _ => reg.get_or_create_histogram(&key, |h| h.clone()),
-                    };
-                    ids[t].store(h.0.id, SeqCst);
+                    for _ in 0..(rnd() % 96) { std::hint::spin_loop(); }
+                    if t < ncre {
+                        let h = goc(kind, &build_key(kcl, ((t + r) % 6) as u32));
+                        ids[t].store(h.0.id, SeqCst);
+                    } else if t == nt - 1 {
+                        goc(kind, &build_key(k2cl, (r % 6) as u32));
+                    } else {
+                        if !del(kind, &build_key(pool[2 + t], ((t + 2 * r) % 6) as u32)) { err(format!("round {}: delete of live {}{} returned false", r, kind, pool[2 + t])); }
+                    }
                     barrier.wait();
                     if t == 0 {
                         let first = ids[0].load(SeqCst);
-                        if ids.iter().any(|x| x.load(SeqCst) != first) {
-                            let mut e = errors.lock().unwrap();
-                            if e.len() < 5 { e.push(format!("round {}: racing creators of fresh {}{} got different storages {:?}", r, kind, 200 + r, ids.iter().map(|x| x.load(SeqCst)).collect::<Vec<u64>>())); }
+                        if (0..ncre).any(|i| ids[i].load(SeqCst) != first) {
+                            err(format!("round {}: racing creators of {}{} got different storages {:?}", r, kind, kcl, (0..ncre).map(|i| ids[i].load(SeqCst)).collect::<Vec<u64>>()));
                         }
+                        let v = visit(&reg2, kind);
+                        let mut seen: HashMap<u32, u64> = HashMap::new();
+                        for (cl, id) in &v { if seen.insert(*cl, *id).is_some() { err(format!("round {}: visit of {} shows class {} twice", r, kind, cl)); } }
+                        let mut hl: Vec<(u32, u64)> = match kind {
+                            'c' => reg2.get_counter_handles().iter().map(|(k, h)| (class_of(k), h.0.id)).collect(),
+                            'g' => reg2.get_gauge_handles().iter().map(|(k, h)| (class_of(k), h.0.id)).collect(),
+                            _ => reg2.get_histogram_handles().iter().map(|(k, h)| (class_of(k), h.0.id)).collect(),
+                        };
+                        let mut vs = v.clone(); vs.sort(); hl.sort();
+                        if vs != hl { err(format!("round {}: handles listing of {} differs from the visit ({} vs {} entries)", r, kind, hl.len(), vs.len())); }
+                        let ncons = slog2.lock().unwrap().iter().filter(|(k, c, _)| *k == kind && *c == kcl).count();
+                        if ncons != 1 { err(format!("round {}: {} constructions for {}{} created once by racing threads", r, ncons, kind, kcl)); }
+                        let kk = build_key(kcl, (r % 6) as u32);
+                        if !del(kind, &kk) { err(format!("round {}: delete of live {}{} returned false", r, kind, kcl)); }
+                        let still = match kind { 'c' => reg2.get_counter(&kk).is_some(), 'g' => reg2.get_gauge(&kk).is_some(), _ => reg2.get_histogram(&kk).is_some() };
+                        if still || visit(&reg2, kind).iter().any(|(cl, _)| *cl == kcl) { err(format!("round {}: {}{} still present after delete returned true", r, kind, kcl)); }
+                        if del(kind, &kk) { err(format!("round {}: second delete of {}{} returned true", r, kind, kcl)); }
+                        reg2.clear();
+                        for i in 0..ncre { ids[i].store(u64::MAX, SeqCst); }
+                        rounds_done.fetch_add(1, SeqCst);
                     }
                     barrier.wait();
                 }
@@ -514,10 +564,7 @@ fn stress(nt: usize, iters: usize, seed: u64) -> String {
         for c in stable.iter() { if let Some(f) = firsts.get(&(kind, *c)) { if seen.get(c) != Some(f) { errs.push(format!("final listing of {} lost stable class {}", kind, c)); } } }
         live_churn += l.iter().filter(|(cl, _)| *cl == 2 || *cl == 17).count() as u64;
     }
-    for ((k, c), n) in cons.iter() {
-        if *c >= 200 && *n != 1 { errs.push(format!("{} constructions for fresh class {}{} raced by all creators", n, k, c)); }
-    }
-    let fresh_rounds = cons.keys().filter(|(_, c)| *c >= 200).count();
+    let fresh_rounds = rounds_done.load(SeqCst);
     let churn_cons: u64 = cons.iter().filter(|((_, c), _)| *c == 2 || *c == 17).map(|(_, n)| *n).sum();
     if churn_cons != removed.load(SeqCst) + live_churn {
         errs.push(format!("churn classes: {} constructions != {} removals + {} live", churn_cons, removed.load(SeqCst), live_churn));
